@@ -160,11 +160,22 @@ var vC11Thresholds = [][2]float64{{-1, -1}, {0, 0}, {1, 1}, {0, 1}, {1, 0}}
 // explorer: every path is one schedule (within the pre-emption budget) and one solver-decided
 // outcome of the symbolic comparisons.
 func VerifC11_Compare(cs int) {
-	scenario, jobs := cs%8, []int{0, 1, 2, 3}[cs/8%4]
+	// cs 0..31: default thresholds, Jobs 0..3; cs 32..47: symbolic MinimumWeightedSimilarity with
+	// Jobs 0 and 1 (with more jobs the symbolic scores times the schedules do not finish in an hour);
+	// cs 48..175: the fixed threshold table, Jobs 0..3
+	scenario := cs % 8
+	jobs, t := []int{0, 1, 2, 3}[cs/8%4], 0
+	switch {
+	case cs >= 48:
+		t = 2 + (cs-48)/32%4
+		jobs = []int{0, 1, 2, 3}[(cs-48)/8%4]
+	case cs >= 32:
+		t = 1
+		jobs = (cs - 32) / 8 % 2
+	}
 	left, right, family := vC11Inputs(scenario)
 	d := NewSimilarityOptions()
 	minWS, preferAbove := d.MinimumWeightedSimilarity, d.PreferPointerAbove
-	t := cs / 32 % 6 // 0 default, 1 symbolic MinimumWeightedSimilarity, 2..5 the fixed table
 	if t == 1 {
 		minWS = VsFloat("minimum", 0, 1)
 	} else if t > 1 {
